@@ -11,8 +11,8 @@ import (
 func init() {
 	register(Property{ID: "C12", Level: "other", Run: runC12,
 		Technique: "static analysis: must-pass-through path conditions on Core.doAPIConfig*/Core.run/conf.AddPath/PatchPath/RemovePath (go/ssa), who-may-store on Core.conf, no-mutation-through-loaded-pointer rule over the module",
-		Text: "Decides the atomicity skeleton on all paths: each of the six Core.doAPIConfig* handlers edits a Clone() of the loaded configuration, returns a non-nil configuration only if the edit call and Validate returned nil, and returns that same clone; Core.run calls reloadConf only with that result under err == nil after replying exactly once; reloadConf stores the new configuration (what later reads return); Core.conf is stored only in New and reloadConf; no function of the module mutates the configuration reached through Core.conf.Load()/APIConfigSnapshot() without an intervening Clone; AddPath fails on an existing name, PatchPath/RemovePath on a missing one, ReplacePath stores exactly the given value. Field-exactness of the reflective copyStructFields is not decided (value level).",
-		Note: "trusted: conf.copyStructFields/reflect, Conf.Clone is deep (C11), Validate rebuilds Paths; aliasing is tracked by value description (no pointer analysis)"})
+		Text:      "Decides the atomicity skeleton on all paths: each of the six Core.doAPIConfig* handlers edits a Clone() of the loaded configuration, returns a non-nil configuration only if the edit call and Validate returned nil, and returns that same clone; Core.run calls reloadConf only with that result under err == nil after replying exactly once; reloadConf stores the new configuration (what later reads return); Core.conf is stored only in New and reloadConf; no function of the module mutates the configuration reached through Core.conf.Load()/APIConfigSnapshot() without an intervening Clone; AddPath fails on an existing name, PatchPath/RemovePath on a missing one, ReplacePath stores exactly the given value. Field-exactness of the reflective copyStructFields is not decided (value level).",
+		Note:      "trusted: conf.copyStructFields/reflect, Conf.Clone is deep (C11), Validate rebuilds Paths; aliasing is tracked by value description (no pointer analysis)"})
 	addMutants(
 		Mutant{"C12", "patch-live-conf-in-place", "internal/core/core.go",
 			"func (p *Core) doAPIConfigGlobalPatch(in conf.OptionalGlobal) (*conf.Conf, error) {\n	newConf := p.conf.Load().Clone()",
@@ -61,7 +61,10 @@ func runC12(c *Ctx) {
 		c.undecided = append(c.undecided, sub.undecided...)
 	}
 
-	type h struct{ name, edit string; hasErr bool }
+	type h struct {
+		name, edit string
+		hasErr     bool
+	}
 	hs := []h{
 		{"doAPIConfigGlobalPatch", "(*conf.Conf).PatchGlobal", false},
 		{"doAPIConfigPathDefaultsPatch", "(*conf.Conf).PatchPathDefaults", false},
@@ -275,7 +278,10 @@ func mutatingConfMethods(p *Prog) map[*ssa.Function]bool {
 			cands = append(cands, fn)
 		}
 	}
-	rooted := func(v ssa.Value) bool { d := desc(v); return d == "$0" || strings.HasPrefix(d, "$0.") || strings.HasPrefix(d, "$0[") }
+	rooted := func(v ssa.Value) bool {
+		d := desc(v)
+		return d == "$0" || strings.HasPrefix(d, "$0.") || strings.HasPrefix(d, "$0[")
+	}
 	for changed := true; changed; {
 		changed = false
 		for _, fn := range cands {
